@@ -3,6 +3,7 @@ import OapiVerif.Model.Reject
 import OapiVerif.Gen.C06
 import OapiVerif.Proofs.IntParse
 import OapiVerif.Proofs.DateParse
+import OapiVerif.Proofs.UuidParse
 /-!
 C06 — Malformed or missing parameters never reach the user's handler.
 
@@ -182,5 +183,22 @@ example : DateParse.parse (wD "2024-02-29") = some ⟨2024, 2, 29⟩ ∧ DatePar
     DateParse.parse (wD "2021-13-01") = none ∧ DateParse.parse (wD "2021-1-01") = none ∧
     DateParse.parse (wD "2021-04-31") = none ∧ DateParse.parse (wD "2021-04-30x") = none ∧
     DateParse.parse (wD "2021-00-10") = none := by decide
+
+/-! ### the typed layer of `format: uuid` (Model/UuidParse.lean: `github.com/google/uuid` `Parse` / `String`) -/
+
+/-- Every 16-byte value is written as 36 characters that are read back as the same 16 bytes. -/
+theorem C06_uuid_written_is_read (bs : List Nat) (hl : bs.length = 16) (hb : ∀ x ∈ bs, x < 256) :
+    UuidParse.parse (UuidParse.render bs) = some bs := UuidParse.parse_render bs hl hb
+
+/-- A text of any other length than the four the library knows (36; 45 with `urn:uuid:`; 38; 32) is refused. -/
+theorem C06_uuid_other_lengths_rejected (s : UuidParse.Str)
+    (h : s.length ≠ 36 ∧ s.length ≠ 45 ∧ s.length ≠ 38 ∧ s.length ≠ 32) : UuidParse.parse s = none := by
+  obtain ⟨h1, h2, h3, h4⟩ := h
+  simp [UuidParse.parse, h1, h2, h3, h4]
+
+example : UuidParse.parse (wD "123e4567-e89b-12d3-a456-426614174000") =
+    some [0x12, 0x3e, 0x45, 0x67, 0xe8, 0x9b, 0x12, 0xd3, 0xa4, 0x56, 0x42, 0x66, 0x14, 0x17, 0x40, 0x00] := by decide
+example : UuidParse.parse (wD "123e4567-e89b-12d3-a456-42661417400g") = none := by decide
+example : UuidParse.parse (wD "123e4567e89b-12d3-a456-4266141740000") = none := by decide
 
 end OapiVerif.Props.C06
